@@ -647,6 +647,15 @@ class CallOps:
         self.seq_axioms_done.add(key)
         st.decls.fun('sjoin', ['String', 'Int'], 'String')
         j = "(sjoin %s %s)" % (sep, q)
+        if q.startswith('(s_app '):
+            parts = smt.split_top(q[7:-1])
+            if len(parts) == 2:
+                q0, v = parts
+                self.join_axioms(sep, q0)
+                j0 = "(sjoin %s %s)" % (sep, q0)
+                st.assume(mk_implies(is_tag('str', v),
+                                     mk_eq(j, mk_ite(mk_eq("(len %s)" % q0, '0'), "(vs %s)" % v,
+                                                     mk_concat([j0, sep, "(vs %s)" % v])))), 'def')
         st.assume(mk_implies(mk_eq("(len %s)" % q, '0'), mk_eq(j, '""')), 'def')
         st.assume(mk_implies(mk_eq("(len %s)" % q, '1'), mk_eq(j, "(vs (at %s 0))" % q)), 'def')
         st.assume(mk_implies(mk_eq("(len %s)" % q, '2'),
@@ -674,16 +683,37 @@ class CallOps:
         return self.mk_str("(sjoin %s %s)" % (sep.term, q))
 
     def str_format(self, tmpl, args, kwargs, node):
-        if not tmpl.is_const:
-            raise Unsupported('format on a non-literal template', node)
         parts = []
         auto = 0
         holes = []
-        try:
-            parsed = list(_FORMATTER.parse(tmpl.const))
-        except ValueError as e:
-            raise Unsupported('bad format string: %s' % e, node)
+        if not tmpl.is_const:
+            # a template that was itself built by concatenation / format: literal pieces are templates,
+            # symbolic pieces must not contain braces (else python would parse them as fields)
+            pieces = smt.split_top(tmpl.term[8:-1]) if tmpl.term.startswith('(str.++ ') else None
+            if not pieces:
+                raise Unsupported('format on a non-literal template', node)
+            parsed = []
+            for pc in pieces:
+                if smt.is_str_lit(pc):
+                    try:
+                        parsed += list(_FORMATTER.parse(smt.str_lit_value(pc)))
+                    except ValueError as e:
+                        raise Unsupported('bad format string: %s' % e, node)
+                else:
+                    self.st.oblige(mk_and(mk_not('(str.contains %s "{")' % pc), mk_not('(str.contains %s "}")' % pc)),
+                                   'format(): the non-literal part of the template contains no braces', node.lineno)
+                    parsed.append((('sym', pc), None, None, None))
+            tmpl_text = tmpl.term
+        else:
+            try:
+                parsed = list(_FORMATTER.parse(tmpl.const))
+            except ValueError as e:
+                raise Unsupported('bad format string: %s' % e, node)
+            tmpl_text = tmpl.const
         for lit, field, spec, conv in parsed:
+            if isinstance(lit, tuple):
+                parts.append(lit[1])
+                continue
             if lit:
                 parts.append(str_lit(lit))
             if field is None:
@@ -713,7 +743,7 @@ class CallOps:
             sv = self.to_repr(v, node) if conv == 'r' else self.to_str(v, node)
             holes.append((field, v, sv))
             parts.append(sv.term)
-        self.format_hook(tmpl.const, holes, node)
+        self.format_hook(tmpl_text, holes, node)
         return self.mk_str(mk_concat(parts))
 
     def format_hook(self, template, holes, node):
